@@ -497,6 +497,25 @@ macro_rules! float_case {
             if !(d > -180.0 - t && d <= 180.0 + t) || (k - k.round()).abs() * 360.0 > t {
                 bad = Some(("Wrap::delta_angle_degrees", "wrong_value", format!("{}: {:e}.delta_angle_degrees({:e}) = {:e}", $name, a, b, d)));
             }
+            // the half-open boundary, hit exactly: half-integer degrees, every intermediate exact in
+            // the type, so the result must be exactly the representative in (-180, 180]
+            if bad.is_none() {
+                let a2 = (rng.range_i64(-1440, 1440) as f64) * 0.5;
+                let turns = rng.range_i64(-3, 3) as f64;
+                let off = *rng.pick(&[180.0, -180.0, 179.5, -179.5, 180.5, 0.0, 360.0, 90.0, -90.5]);
+                let b2 = a2 + off + 360.0 * turns;
+                let mut e = off % 360.0;
+                if e > 180.0 {
+                    e -= 360.0;
+                }
+                if e <= -180.0 {
+                    e += 360.0;
+                }
+                let d = (a2 as F).delta_angle_degrees(b2 as F) as f64;
+                if d != e {
+                    bad = Some(("Wrap::delta_angle_degrees", "wrong_value", format!("{}: {:e}.delta_angle_degrees({:e}) = {:e}, the representative of {:e} in (-180, 180] is {:e} (all values exact in the type)", $name, a2, b2, d, b2 - a2, e)));
+                }
+            }
             $sub.saw("Wrap::wrapped_2pi");
             let w = a.wrapped_2pi() as f64;
             let k = (a as f64 - w) / (2.0 * pi);
